@@ -143,6 +143,7 @@ struct Th {
     calls: u64,
     prio: u64,
     timed_out: bool,
+    daemon: bool,
 }
 
 struct State {
@@ -167,6 +168,7 @@ struct State {
     passthrough: bool,
     os_handles: Vec<Option<std::thread::JoinHandle<()>>>,
     exiting: Vec<usize>,
+    shutdown: bool,
 }
 
 pub struct Sim {
@@ -382,7 +384,7 @@ impl Sim {
             }
             return;
         }
-        if st.aborted.is_some() {
+        if st.aborted.is_some() || st.shutdown {
             drop(st);
             abort_unwind();
             return;
@@ -470,10 +472,10 @@ impl Sim {
                 return;
             }
             let mycv = st.threads[me].cv.clone();
-            while st.current != me && st.aborted.is_none() {
+            while st.current != me && st.aborted.is_none() && !st.shutdown {
                 st = mycv.wait(st).unwrap_or_else(|e| e.into_inner());
             }
-            if st.aborted.is_some() {
+            if st.aborted.is_some() || st.shutdown {
                 drop(st);
                 abort_unwind();
             }
@@ -501,6 +503,12 @@ impl Sim {
         }
         st.threads[me].status = Status::Finished;
         st.live -= 1;
+        if st.live > 0 && st.threads.iter().all(|t| t.status == Status::Finished || t.daemon) {
+            // only daemon threads (started by the code under test) are left: end of the run
+            st.shutdown = true;
+            self.release_all(st);
+            return;
+        }
         for t in st.threads.iter_mut() {
             if matches!(t.status, Status::Blocked | Status::BlockedUntil(_)) {
                 t.status = Status::Runnable;
@@ -690,18 +698,18 @@ where
     F: FnOnce() + Send + 'static,
 {
     let (sim, _) = ctx().expect("spawn outside simulation");
-    let tid = start_thread(&sim, name, Box::new(f));
+    let tid = start_thread(&sim, name, false, Box::new(f));
     JoinHandle { tid }
 }
 
-fn start_thread(sim: &Arc<Sim>, name: &str, f: Box<dyn FnOnce() + Send + 'static>) -> usize {
+fn start_thread(sim: &Arc<Sim>, name: &str, daemon: bool, f: Box<dyn FnOnce() + Send + 'static>) -> usize {
     let tid;
     let cv = Arc::new(Condvar::new());
     {
         let mut st = sim.lock();
         tid = st.threads.len();
         let prio = 1_000_000 + st.rng_prio();
-        st.threads.push(Th { name: name.to_string(), status: Status::Runnable, cv: cv.clone(), calls: 0, prio, timed_out: false });
+        st.threads.push(Th { name: name.to_string(), status: Status::Runnable, cv: cv.clone(), calls: 0, prio, timed_out: false, daemon });
         st.live += 1;
     }
     let sim2 = sim.clone();
@@ -714,10 +722,10 @@ fn start_thread(sim: &Arc<Sim>, name: &str, f: Box<dyn FnOnce() + Send + 'static
             // Wait for the baton.
             {
                 let mut st = sim2.lock();
-                while st.current != tid && st.aborted.is_none() {
+                while st.current != tid && st.aborted.is_none() && !st.shutdown {
                     st = cv.wait(st).unwrap_or_else(|e| e.into_inner());
                 }
-                if st.aborted.is_some() {
+                if st.aborted.is_some() || st.shutdown {
                     st.threads[tid].status = Status::Finished;
                     st.live -= 1;
                     sim2.done.notify_all();
@@ -742,7 +750,7 @@ fn start_thread(sim: &Arc<Sim>, name: &str, f: Box<dyn FnOnce() + Send + 'static
                     sim2.lock().panics.push((tid as u32, tname.clone(), format!("{} @ {}", msg, loc)));
                 }
             }
-            let aborted = sim2.lock().aborted.is_some();
+            let aborted = { let st = sim2.lock(); st.aborted.is_some() || st.shutdown };
             if aborted || aborted_unwind {
                 let mut st = sim2.lock();
                 if st.threads[tid].status != Status::Finished {
@@ -799,7 +807,9 @@ pub fn install_quiet_panic_hook() {
 pub fn adopt_thread(name: &str, f: Box<dyn FnOnce() + Send + 'static>) -> Option<Box<dyn FnOnce() + Send + 'static>> {
     match ctx() {
         Some((sim, _)) => {
-            start_thread(&sim, name, f);
+            // threads started by the code under test are daemons: the run ends when the scenario's
+            // own threads are done, and daemons are unwound at their next scheduling point
+            start_thread(&sim, name, true, f);
             None
         }
         None => Some(f),
@@ -843,10 +853,11 @@ where
             passthrough: false,
             os_handles: Vec::new(),
             exiting: Vec::new(),
+            shutdown: false,
         }),
         done: Condvar::new(),
     });
-    start_thread(&sim, "main", Box::new(main));
+    start_thread(&sim, "main", false, Box::new(main));
     // thread 0 holds the baton from the start (current == 0).
     {
         let st = sim.lock();
@@ -905,4 +916,34 @@ where
 /// Thread names by tid (for reports).
 pub fn thread_name(tid: u32) -> String {
     ctx().map(|(s, _)| s.lock().threads.get(tid as usize).map(|t| t.name.clone()).unwrap_or_default()).unwrap_or_default()
+}
+
+/// Join handle of a simulated thread that returns a value.
+pub struct JoinHandleV<T> {
+    h: JoinHandle,
+    slot: Arc<Mutex<Option<T>>>,
+}
+
+impl<T> JoinHandleV<T> {
+    /// Blocks (in simulated terms) until the thread has finished; panics if it panicked.
+    pub fn join(self) -> T {
+        self.h.join();
+        let v = self.slot.lock().unwrap().take();
+        v.expect("simulated thread did not produce a value (it panicked)")
+    }
+}
+
+/// Spawn a simulated thread whose closure returns a value.
+pub fn spawn_v<T, F>(name: &str, f: F) -> JoinHandleV<T>
+where
+    T: Send + 'static,
+    F: FnOnce() -> T + Send + 'static,
+{
+    let slot: Arc<Mutex<Option<T>>> = Arc::new(Mutex::new(None));
+    let s2 = slot.clone();
+    let h = spawn(name, move || {
+        let v = f();
+        *s2.lock().unwrap() = Some(v);
+    });
+    JoinHandleV { h, slot }
 }
